@@ -66,6 +66,8 @@ struct Node {
     ids: Ids,
     /// this module's at_sim_end reports an error
     fail_end: bool,
+    /// this module shuts itself down when its self message arrives (it is torn down all the same)
+    goes_down: bool,
 }
 type Ids = Arc<Mutex<std::collections::BTreeMap<String, String>>>;
 impl Module for Node {
@@ -84,6 +86,9 @@ impl Module for Node {
     }
     fn handle_message(&mut self, _: Message) {
         self.log.lock().unwrap().push(format!("event:{}", self.path));
+        if self.goes_down {
+            current().shutdown();
+        }
     }
     fn at_sim_end(&mut self) -> Result<(), RuntimeError> {
         let me = current();
@@ -145,6 +150,8 @@ struct Case {
     /// every top-level subtree is created by one ModuleBlock through the scoped builder (root
     /// via `root`, descendants via `node` with relative paths), in the order they have in `order`
     via_block: bool,
+    /// node that shuts itself down during the run
+    goes_down: Option<usize>,
 }
 
 /// a module block that creates a whole subtree through the scoped builder
@@ -177,7 +184,7 @@ fn paths(parent: &[Option<usize>]) -> Vec<String> {
 }
 
 fn case_json(c: &Case) -> Value {
-    json!({"parent": c.parent, "paths": paths(&c.parent), "insertion_order": c.order, "stages": c.stages, "rejected_offers_in_between": c.offers, "at_sim_end_fails_in": c.fail_end, "subtrees_created_by_module_blocks": c.via_block})
+    json!({"parent": c.parent, "paths": paths(&c.parent), "insertion_order": c.order, "stages": c.stages, "rejected_offers_in_between": c.offers, "at_sim_end_fails_in": c.fail_end, "subtrees_created_by_module_blocks": c.via_block, "shuts_down_during_the_run": c.goes_down})
 }
 fn case_from(v: &Value) -> Case {
     Case {
@@ -187,6 +194,7 @@ fn case_from(v: &Value) -> Case {
         offers: v["rejected_offers_in_between"].as_bool().unwrap_or(false),
         fail_end: v["at_sim_end_fails_in"].as_u64().map(|x| x as usize),
         via_block: v["subtrees_created_by_module_blocks"].as_bool().unwrap_or(false),
+        goes_down: v["shuts_down_during_the_run"].as_u64().map(|x| x as usize),
     }
 }
 
@@ -241,7 +249,7 @@ fn run_plain(c: &Case) -> Result<u64, String> {
     let blocks = BLOCKS.with(|b| b.get());
     let mk_node = |i: usize| {
         let children: Vec<String> = (0..n).filter(|&k| c.parent[k] == Some(i)).map(|k| ps[k].clone()).collect();
-        Node { path: ps[i].clone(), log: log.clone(), stages: c.stages[i], children, ids: ids.clone(), fail_end: c.fail_end == Some(i) }
+        Node { path: ps[i].clone(), log: log.clone(), stages: c.stages[i], children, ids: ids.clone(), fail_end: c.fail_end == Some(i), goes_down: c.goes_down == Some(i) }
     };
     if blocks {
         let root_of = |mut i: usize| {
@@ -267,7 +275,7 @@ fn run_plain(c: &Case) -> Result<u64, String> {
         if c.offers {
             let junk: Log = Default::default();
             let mut offer = |p: String| -> bool {
-                let nd = Node { path: format!("offered:{p}"), log: junk.clone(), stages: 1, children: vec![], ids: Default::default(), fail_end: false };
+                let nd = Node { path: format!("offered:{p}"), log: junk.clone(), stages: 1, children: vec![], ids: Default::default(), fail_end: false, goes_down: false };
                 std::panic::catch_unwind(std::panic::AssertUnwindSafe(|| {
                     sim.node(p.as_str(), nd);
                 }))
@@ -321,8 +329,18 @@ fn run_plain(c: &Case) -> Result<u64, String> {
         return Err(format!("tree {ps:?} inserted in order {:?} with stages {:?}: at_sim_start calls {gs:?}, expected {exp:?}", c.order, c.stages));
     }
     let mut ge: Vec<String> = got.iter().filter(|s| s.starts_with("end")).cloned().collect();
-    ge.sort();
     let mut ee: Vec<String> = (0..n).map(|i| format!("end:{}:parent_ok=true:children_ok=true:path_ok=true:name_ok=true", ps[i])).collect();
+    if c.goes_down.is_some() {
+        // relatives of a module that is down cannot be looked up; only "exactly once per module" is compared
+        let strip = |v: &mut Vec<String>| {
+            for e in v.iter_mut() {
+                *e = e.split(":parent_ok=").next().unwrap().to_string();
+            }
+        };
+        strip(&mut ge);
+        strip(&mut ee);
+    }
+    ge.sort();
     ee.sort();
     if ge != ee {
         return Err(format!("tree {ps:?}: at_sim_end log {ge:?}, expected exactly once per module with matching parent/child/path/name lookups {ee:?}"));
@@ -340,7 +358,7 @@ fn run_plain(c: &Case) -> Result<u64, String> {
 
 /// builder rejections: kind 0 = duplicate path at depth d, kind 1 = node whose parent is missing
 fn rejection(kind: u8, depth: usize) -> Result<(), String> {
-    let mk = |p: &str| Node { path: p.into(), log: Default::default(), stages: 1, children: vec![], ids: Default::default(), fail_end: false };
+    let mk = |p: &str| Node { path: p.into(), log: Default::default(), stages: 1, children: vec![], ids: Default::default(), fail_end: false, goes_down: false };
     let chain: Vec<String> = (0..depth).map(|d| NAMES[..=d].join(".")).collect();
     let accepted = std::sync::Arc::new(Mutex::new(false));
     let acc = accepted.clone();
@@ -376,7 +394,7 @@ impl Property for C12 {
         format!(
             "every rooted forest with 1..={} nodes (names a, ab, b, a1, abc, c: prefix-sharing siblings and parent/child names) x every linear extension of parent-before-child as insertion order x every assignment of 0..3 start stages (a module declaring none is never started; for up to {} nodes; larger trees: all assignments with at most 2 nodes deviating from 1 stage); \
              oracle: at_sim_start log == stage-major, depth-first pre-order with siblings in creation order, exactly once per declared stage, all before the first event; at_sim_end exactly once per module after the last event; parent()/child()/path()/name() agree with the declared tree, and the module a lookup returns is the declared one (same id as that module sees for itself); \
-             duplicate path and missing parent rejected at depths 1..3; start stages of a module built from an NDL description next to a node()-built module (7 combinations of stage counts); per (forest, insertion order) one more run in which, after every insertion, every path inserted so far and an orphan are offered again: each offer must be rejected and the run must be unchanged; one run in which every top-level subtree is created by a ModuleBlock through the scoped builder (root / node with relative paths); and one run in which one module's at_sim_end returns an error: run() reports it and every module is still torn down exactly once; non-trivial = forest with at least 3 nodes",
+             duplicate path and missing parent rejected at depths 1..3; start stages of a module built from an NDL description next to a node()-built module (7 combinations of stage counts); per (forest, insertion order) one more run in which, after every insertion, every path inserted so far and an orphan are offered again: each offer must be rejected and the run must be unchanged; one run in which every top-level subtree is created by a ModuleBlock through the scoped builder (root / node with relative paths); one run in which one module shuts itself down during the run (it still gets its at_sim_end); and one run in which one module's at_sim_end returns an error: run() reports it and every module is still torn down exactly once; non-trivial = forest with at least 3 nodes",
             tier.pick(5, 6),
             tier.pick(4, 4)
         )
@@ -385,7 +403,7 @@ impl Property for C12 {
         vec!["modules are created through the simulation builder (Sim::node); NDL-built trees are C18's subject".into()]
     }
     fn required_features(&self, _tier: Tier) -> Vec<&'static str> {
-        vec!["interleaved_children_of_different_parents", "multi_stage_module", "depth_three_tree", "builder_rejections", "several_roots", "rejected_offers_between_insertions", "tear_down_reporting_an_error", "module_without_start_stage", "subtrees_created_by_module_blocks", "start_stages_of_ndl_built_modules"]
+        vec!["interleaved_children_of_different_parents", "multi_stage_module", "depth_three_tree", "builder_rejections", "several_roots", "rejected_offers_between_insertions", "tear_down_reporting_an_error", "module_without_start_stage", "subtrees_created_by_module_blocks", "start_stages_of_ndl_built_modules", "module_down_at_the_end_of_the_run"]
     }
     fn explore(&self, ctx: &mut Ctx) {
         if ctx.is_first_shard() {
@@ -461,13 +479,17 @@ impl Property for C12 {
                     }
                     // children of different parents interleaved in the insertion order
                     let interleaved = perm.windows(3).any(|w| par[w[0]].is_some() && par[w[0]] == par[w[2]] && par[w[1]] != par[w[0]] && par[w[1]].is_some());
-                    for (si, stages) in stage_sets.iter().enumerate().flat_map(|(i, s)| if i == 0 { vec![(0usize, s), (usize::MAX, s), (usize::MAX - 1, s), (usize::MAX - 2, s)] } else { vec![(i, s)] }) {
+                    for (si, stages) in stage_sets.iter().enumerate().flat_map(|(i, s)| if i == 0 { vec![(0usize, s), (usize::MAX, s), (usize::MAX - 1, s), (usize::MAX - 2, s), (usize::MAX - 3, s)] } else { vec![(i, s)] }) {
                         if !ctx.mine() {
                             continue;
                         }
                         // the failing module rotates with the insertion order
                         let fail_end = (si == usize::MAX - 1).then(|| perm[perm.len() / 2]);
-                        let c = Case { parent: par.clone(), order: perm.clone(), stages: stages.clone(), offers: si == usize::MAX, fail_end, via_block: si == usize::MAX - 2 };
+                        let goes_down = (si == usize::MAX - 3).then(|| perm[(perm.len() - 1) / 2]);
+                        let c = Case { parent: par.clone(), order: perm.clone(), stages: stages.clone(), offers: si == usize::MAX, fail_end, via_block: si == usize::MAX - 2, goes_down };
+                        if goes_down.is_some() {
+                            ctx.hit("module_down_at_the_end_of_the_run");
+                        }
                         if c.via_block {
                             ctx.hit("subtrees_created_by_module_blocks");
                         }
